@@ -207,6 +207,13 @@ def markers(estart: bool, eend: bool, ver: bool, tg: bool, r0: int, r1: int, can
         not_a_finding(e)
         return fail(P, exc_sig(e), r0=r0)
     reach()
+    # the output is text the library's own reader, scanner and parser accept, and it denotes the two documents
+    try:
+        back = list(yaml.safe_load_all(out.getvalue()))
+    except yaml.YAMLError as e:
+        return fail(P, 'REREAD the library rejects its own output (%s)' % type(e).__name__, r0=r0, r1=r1)
+    if len(back) != 2 or back[0] != docs[0] or back[1] != docs[1]:
+        return fail(P, 'REREAD the output does not denote the documents that were dumped', r0=r0, r1=r1)
     lines = out.getvalue().split('\n')
     n = 2
     if estart and sum(1 for l in lines if l == '---' or l.startswith('--- ')) != n:
@@ -221,6 +228,27 @@ def markers(estart: bool, eend: bool, ver: bool, tg: bool, r0: int, r1: int, can
 
 
 TABLE = ['a', 'é', '\U0001f600', 'a b', 'x\ny', '\x85', ' ', '', ['a', 'é'], {'k': 'é', 'j': ['\U0001f600']}, 12, 1.5, None, True]
+
+
+def long_keys(ci: int, n: int, allow_unicode: bool, flow_i: int, style_i: int) -> str:
+    """keys around and beyond the emitter's simple-key limit: the output must be accepted by the library's own reader"""
+    ch = pick(ci, ['a', '\xe9', '\x01', "'", ' a', '\U0001f600'])
+    m = pick(n, [100, 127, 128, 129, 260, 300, 1100])
+    key = (ch * m)[:m]
+    over = ch == '\U0001f600' and not allow_unicode and m < 128
+    try:
+        out = Sink()
+        yaml.dump({key: 1}, out, Dumper=yaml.SafeDumper, allow_unicode=allow_unicode, default_flow_style=pick(flow_i, FLOWS), default_style=pick(style_i, [None, "'", '"']))
+        back = yaml.safe_load(out.getvalue())
+    except yaml.YAMLError as e:
+        return fail(P, 'REREAD the library rejects its own output (%s)' % type(e).__name__, long_key_over=over, ci=ci)
+    except Exception as e:
+        not_a_finding(e)
+        return fail(P, exc_sig(e), ci=ci)
+    reach()
+    if back != {key: 1}:
+        return fail(P, 'REREAD the output does not denote the value that was dumped', ci=ci)
+    return 'ok'
 
 
 def encodings(k: int, enc_i: int, allow_unicode: bool) -> str:
@@ -317,6 +345,8 @@ def jobs(tier):
                   bounds='3 nested structures x indent 0..11 x {plain, literal} styles'))
     js.append(Job('markers', markers, [lambda estart, eend, ver, tg, r0, r1, canonical, style_i: 0 <= r0 <= 5 and 0 <= r1 <= 5 and (style_i == 0 if q else 0 <= style_i <= 4)],
                   budget=250, bounds='2 documents of 6 root kinds x explicit_start x explicit_end x version x tags x canonical'))
+    js.append(Job('long-keys', long_keys, [lambda ci, n, allow_unicode, flow_i, style_i: 0 <= ci <= 5 and 0 <= n <= 6 and 0 <= flow_i <= 1 and 0 <= style_i <= 2],
+                  budget=250, bounds='mapping keys of 6 character kinds x length in {100,127,128,129,260,300,1100} x allow_unicode x block/flow x 3 styles'))
     js.append(Job('encodings', encodings, [lambda k, enc_i, allow_unicode: 0 <= k < len(TABLE) and 0 <= enc_i <= 4], budget=120,
                   bounds='%d values x encoding in {None, utf-8, utf-16-le, utf-16-be, utf-16} x allow_unicode' % len(TABLE)))
     js.append(Job('canonical', canonical, [lambda k, allow_unicode, narrow: 0 <= k < len(TABLE) + 6], budget=250,
